@@ -267,7 +267,7 @@ func main() {
 		}
 		runCase(i)
 	})
-	runConcurrentUse()
+	runConcurrentUseChild()
 	if s := skipped.Load(); s > 0 {
 		run.Inconclusive("watchdog: %d of %d cases not executed before the deadline", s, n)
 	}
